@@ -495,6 +495,13 @@ class Cont(object):
         self.env = env
 
 
+class NeedSplit(Exception):
+    """a comparison over a ranged atom is not decided by its current range: the driver splits the range at `point` (cases <= point and > point)"""
+    def __init__(self, atom, point):
+        Exception.__init__(self, "split %s at %s" % (atom, point))
+        self.atom, self.point = atom, point
+
+
 class Split(object):
     def __init__(self, cond, a, b):
         self.cond, self.a, self.b = cond, a, b
@@ -545,6 +552,8 @@ class Spec(object):
         self.opaque_funcs = set(opaque_funcs)
         self.hooks = list(hooks)
         self.assume = assume or {}  # repr(term) -> value
+        self.ranges = {}  # repr(atom) -> (lo, hi): integer ranges that decide comparisons (interval reasoning); undecided ones raise NeedSplit
+        self.unroll_overflow = []  # loops whose concretely-decided test stayed true for more than the unrolling bound
         self.nsym = 0
         self.fnstack = []
         self.steps = 0
@@ -737,8 +746,88 @@ class Spec(object):
             return True
         return res[0] if len(res) == 1 else Op("and*", *res)
 
+    def interval(self, t):
+        """(lo, hi) of an integer term under self.ranges (atoms with a declared range), or None"""
+        if isinstance(t, bool):
+            return None
+        if isinstance(t, int):
+            return (t, t)
+        if isinstance(t, (Sym, Op)) and repr(t) in self.ranges:
+            return self.ranges[repr(t)]
+        if isinstance(t, Lin):
+            lo = hi = t.const
+            for a, c in t.terms.items():
+                r = self.ranges.get(repr(a))
+                if r is None:
+                    return None
+                lo += min(c * r[0], c * r[1])
+                hi += max(c * r[0], c * r[1])
+            return (lo, hi)
+        if isinstance(t, Op) and t.op == "bits" and t.args[1] == 0 and isinstance(t.args[2], int):
+            r = self.interval(t.args[0])
+            if r is not None and 0 <= r[0] and r[1] < (1 << t.args[2]):
+                return r
+            return (0, (1 << t.args[2]) - 1)
+        return None
+
+    def quotient_by_range(self, x, c):
+        """x // c as a constant when the declared ranges put x inside one quotient class; NeedSplit at the class boundary when x is one ranged atom"""
+        if not self.ranges:
+            return None
+        r = self.interval(x)
+        if r is None:
+            return None
+        if r[0] // c == r[1] // c:
+            return r[0] // c
+        lx = lin(x)
+        if lx is not None and len(lx.terms) == 1:
+            (a, k), = lx.terms.items()
+            if k in (1, -1) and repr(a) in self.ranges:
+                boundary = (r[0] // c + 1) * c - 1  # last value of x in the lowest quotient class
+                ar = self.ranges[repr(a)]
+                # x = k*a + const  ->  a value at the boundary
+                av = (boundary - lx.const) if k == 1 else (lx.const - boundary - 1)
+                raise NeedSplit(repr(a), max(ar[0], min(ar[1] - 1, av)))
+        return None
+
+    def decide_by_range(self, t, left, rv):
+        """decide an ordering/equality between integer terms from the declared ranges; raise NeedSplit when one ranged atom straddles the boundary"""
+        d = add(left, rv, -1)
+        r = self.interval(d)
+        if r is None:
+            return None
+        lo, hi = r
+        verdict = {ast.Gt: (lo > 0, hi <= 0), ast.GtE: (lo >= 0, hi < 0), ast.Lt: (hi < 0, lo >= 0), ast.LtE: (hi <= 0, lo > 0),
+                   ast.Eq: (lo == hi == 0, lo > 0 or hi < 0), ast.NotEq: (lo > 0 or hi < 0, lo == hi == 0)}[t]
+        if verdict[0]:
+            return True
+        if verdict[1]:
+            return False
+        if isinstance(d, Lin) and len(d.terms) == 1:
+            (a, c), = d.terms.items()
+            ar = self.ranges[repr(a)]
+            # boundary on the atom: c*x + k crosses zero (for == / != : the point itself is split off in two steps)
+            k = d.const
+            x0 = -k / c
+            import math
+            if t in (ast.Eq, ast.NotEq):
+                xi = int(round(x0))
+                point = xi - 1 if ar[0] < xi else xi
+            elif (t in (ast.Gt, ast.LtE)) == (c > 0):
+                point = math.floor(x0)      # c*x + k > 0  <=>  x > x0 (c > 0): cases x <= floor(x0), x >= floor(x0)+1
+            else:
+                point = math.ceil(x0) - 1   # c*x + k >= 0 <=> x >= x0 (c > 0): cases x <= ceil(x0)-1, x >= ceil(x0)
+            point = max(ar[0], min(ar[1] - 1, int(point)))
+            raise NeedSplit(repr(a), point)
+        return None
+
     def compare(self, op, left, rv):
         t = type(op)
+        if self.ranges and t in (ast.Gt, ast.GtE, ast.Lt, ast.LtE, ast.Eq, ast.NotEq) and (is_sym(left) or is_sym(rv)) \
+                and isinstance(left, (int, Sym, Lin, Op)) and isinstance(rv, (int, Sym, Lin, Op)) and not isinstance(left, bool) and not isinstance(rv, bool):
+            known = self.decide_by_range(t, left, rv)
+            if known is not None:
+                return known
         symbolic = is_sym(left) or is_sym(rv)
         if not symbolic and t in (ast.In, ast.NotIn) and isinstance(rv, (tuple, list)) and any(is_sym(x) for x in rv):
             symbolic = True
@@ -1233,7 +1322,9 @@ class Spec(object):
             return Op("bytesof", *args[0])  # a bytes object built from (partly symbolic) byte values
         if f is divmod and len(args) == 2 and is_sym(args[0]) and isinstance(args[1], int) and not isinstance(args[1], bool) and args[1] > 0 \
                 and not isinstance(args[0], Top):
-            q = Op("floordiv", args[0], args[1])
+            q = self.quotient_by_range(args[0], args[1])
+            if q is None:
+                q = Op("floordiv", args[0], args[1])
             return (q, add(args[0], mul(q, -args[1])))
         if f is ord and len(args) == 1 and is_sym(args[0]):
             v = args[0]
@@ -1283,11 +1374,26 @@ class Spec(object):
                 self.effect("call", name, tuple(args), tuple(sorted(kw.items())), node=node)
             return self.assumed(t)
         self_obj = getattr(f, "__self__", None)
+        if name == "join" and isinstance(self_obj, (str, bytes)) and len(self_obj) == 0 and len(args) == 1 and isinstance(args[0], (list, tuple)) \
+                and any(is_sym(x) or has_sym(x) for x in args[0]):
+            # "".join(pieces) with symbolic pieces: the concatenation of the pieces, in order
+            return Op("concat", self_obj, *args[0])
         if self.guards and self_obj is not None and isinstance(self_obj, (list, dict, set, bytearray)) and name in (
                 "append", "extend", "add", "update", "insert", "remove", "pop", "clear", "setdefault", "sort", "reverse"):
             self.effect("mutate", name, show(self_obj)[:40], tuple(args), node=node)
             self.taint(self_obj)
             return None
+        if f is sorted and len(args) == 1 and set(kw) <= {"key", "reverse"} and isinstance(kw.get("key"), FuncRef) and not is_sym(args[0]):
+            # sorted(items, key=<repo function>): the key function is inlined per element; a concrete order exists when every key is concrete
+            try:
+                items = list(args[0])
+            except TypeError:
+                items = None
+            if items is not None:
+                keys = [self.call(kw["key"], [it], {}, node, {}) for it in items]
+                if not any(has_sym(k) or is_sym(k) for k in keys):
+                    order = sorted(range(len(items)), key=lambda i: keys[i], reverse=bool(kw.get("reverse", False)))
+                    return [items[i] for i in order]
         if any(isinstance(a, (FuncRef, BoundMethod, ClassRef, Instance, ModuleNS)) for a in list(args) + list(kw.values())):
             if f in (isinstance, hasattr, getattr, callable, id, type, repr, str):
                 pass
@@ -1886,6 +1992,7 @@ class Spec(object):
                 return Fall(env)
             n += 1
             if n > 300:
+                self.unroll_overflow.append(ast.unparse(s.test)[:60])
                 break
             snapshot = dict(env)
             mark = len(self.effects)
